@@ -64,6 +64,7 @@ type seqCase struct {
 type heldEvent struct {
 	ev     any
 	copies []proto.Message
+	ptrs   []proto.Message
 	what   string
 }
 
@@ -88,6 +89,7 @@ func sameMsg(a, b proto.Message) bool {
 func (s *seqCase) hold(ev any, what string, paths []string, want ...proto.Message) {
 	h := &heldEvent{ev: ev, what: what}
 	for i, v := range eventValues(ev) {
+		h.ptrs = append(h.ptrs, v)
 		if isNilMsg(v) {
 			h.copies = append(h.copies, nil)
 		} else {
@@ -132,15 +134,13 @@ func (s *seqCase) after(op string, js any, isRead bool, allowed int) {
 		}
 	}
 	for _, h := range s.held {
+		// the event struct must keep pointing at the messages it was delivered with (a change INSIDE such a
+		// message is reported through the snapshots); another subscription swapping them shows here
 		for i, v := range eventValues(h.ev) {
-			if !sameMsg(v, h.copies[i]) {
+			if v != h.ptrs[i] {
 				s.evbad = true
 				s.evnote = append(s.evnote, fmt.Sprintf("%s: the event now carries %s, it carried %s when received", h.what, txt(v), txt(h.copies[i])))
-				if isNilMsg(v) {
-					h.copies[i] = nil
-				} else {
-					h.copies[i] = proto.Clone(v)
-				}
+				h.ptrs[i] = v
 			}
 		}
 	}
